@@ -208,7 +208,7 @@ class World:
             rets = ret if isinstance(ret, Multi) else Multi([ret])
             for k, r in enumerate(rets.items):
                 h = rets.hints[k] if rets.hints else hint
-                if isinstance(r, self.bs.Bits):
+                if isinstance(r, (self.bs.Bits, self.bs.Array)):
                     alias = ''
                     for oid, o in self.objs.items():
                         if o is r:
@@ -1396,3 +1396,257 @@ def _interpscaled(w, c):
     if isinstance(r, int) and not isinstance(r, bool):
         return r
     return float(r) if isinstance(r, (int, float)) else enc.OPAQUE
+
+
+
+# ---------------------------------------------------------------------------
+# Array (C14)
+
+def _dtype_arg(w, c, name, n, style=0):
+    """how the dtype is handed to Array: a token string ('uint8', 'uint:8'), or a Dtype object"""
+    if style == 9:
+        return c['sa'][2]           # struct spelling such as '>H'
+    if style % 3 == 2:
+        return w.bs.Dtype(name, n)
+    return tokname(name, n, style).strip()
+
+
+def _items(w, c):
+    return [pyval(w, v) for v in c['va']]
+
+
+@op('anew')
+def _anew(w, c):
+    name, n = c['sa'][0], N(c['ia'][0])
+    style = c['ia'][1] if len(c['ia']) > 1 else 0
+    items = _items(w, c)
+    kw = {}
+    if c['xs']:
+        kw['trailing_bits'] = w.operand(c['xs'][0])
+    how = c['sa'][1] if len(c['sa']) > 1 else 'list'
+    if how == 'tuple':
+        items = tuple(items)
+    elif how == 'iter':
+        items = iter(items)
+    elif how == 'extend':
+        a = w.bs.Array(_dtype_arg(w, c, name, n, style))
+        a.extend(items)
+        if c['xs']:
+            a.data += w.operand(c['xs'][0])
+        return a
+    return w.bs.Array(_dtype_arg(w, c, name, n, style), items, **kw)
+
+
+@op('anewdata')
+def _anewdata(w, c):
+    name, n = c['sa'][0], N(c['ia'][0])
+    style = c['ia'][1] if len(c['ia']) > 1 else 0
+    return w.bs.Array(_dtype_arg(w, c, name, n, style), w.operand(c['xs'][0]))
+
+
+@op('alen', 'small')
+def _alen(w, c):
+    return len(T(w, c))
+
+
+@op('aitemsize', 'small')
+def _aitemsize(w, c):
+    return T(w, c).itemsize
+
+
+def _item_hint(w, c):
+    return _hint_for(T(w, c).dtype.name)
+
+
+@op('agetitem')
+def _agetitem(w, c):
+    return Multi([T(w, c)[c['ia'][0]]], [_item_hint(w, c)])
+
+
+@op('agetslice')
+def _agetslice(w, c):
+    a, b, st = (N(x) for x in c['ia'][:3])
+    return T(w, c)[a:b:st]
+
+
+@op('atolist')
+def _atolist(w, c):
+    r = T(w, c).tolist()
+    return Multi(r, [_item_hint(w, c)] * len(r))
+
+
+@op('aiter')
+def _aiter(w, c):
+    r = list(iter(T(w, c)))
+    return Multi(r, [_item_hint(w, c)] * len(r))
+
+
+@op('atrailing')
+def _atrailing(w, c):
+    return T(w, c).trailing_bits
+
+
+@op('adata')
+def _adata(w, c):
+    # a copy: the data attribute itself is the internal buffer by design
+    return T(w, c).data.copy()
+
+
+@op('atobytes')
+def _atobytes(w, c):
+    return T(w, c).tobytes()
+
+
+@op('atofile')
+def _atofile(w, c):
+    f = io.BytesIO()
+    T(w, c).tofile(f)
+    return f.getvalue()
+
+
+@op('acopy')
+def _acopy(w, c):
+    how = c['sa'][0] if c['sa'] else 'copy'
+    a = T(w, c)
+    if how == 'slice':
+        return a[:]
+    return _copy.copy(a)
+
+
+@op('asetitem')
+def _asetitem(w, c):
+    T(w, c)[c['ia'][0]] = pyval(w, c['va'][0])
+
+
+@op('asetslice')
+def _asetslice(w, c):
+    a, b, st = (N(x) for x in c['ia'][:3])
+    T(w, c)[a:b:st] = _items(w, c)
+
+
+@op('adelitem')
+def _adelitem(w, c):
+    del T(w, c)[c['ia'][0]]
+
+
+@op('adelslice')
+def _adelslice(w, c):
+    a, b, st = (N(x) for x in c['ia'][:3])
+    del T(w, c)[a:b:st]
+
+
+@op('aappend')
+def _aappend(w, c):
+    T(w, c).append(pyval(w, c['va'][0]))
+
+
+@op('aextend')
+def _aextend(w, c):
+    T(w, c).extend(_items(w, c))
+
+
+@op('ainsert')
+def _ainsert(w, c):
+    T(w, c).insert(c['ia'][0], pyval(w, c['va'][0]))
+
+
+@op('apop')
+def _apop(w, c):
+    i = N(c['ia'][0])
+    r = T(w, c).pop() if i is None else T(w, c).pop(i)
+    return Multi([r], [_item_hint(w, c)])
+
+
+@op('areverse')
+def _areverse(w, c):
+    T(w, c).reverse()
+
+
+@op('acount', 'small')
+def _acount(w, c):
+    return T(w, c).count(pyval(w, c['va'][0]))
+
+
+@op('aequals')
+def _aequals(w, c):
+    return T(w, c).equals(w.objs[c['xs'][0]['id']])
+
+
+@op('asetdtype')
+def _asetdtype(w, c):
+    name, n = c['sa'][0], N(c['ia'][0])
+    T(w, c).dtype = _dtype_arg(w, c, name, n, c['ia'][1] if len(c['ia']) > 1 else 0)
+
+
+@op('abyteswap')
+def _abyteswap(w, c):
+    T(w, c).byteswap()
+
+
+import operator as _operator
+_OPS = {'add': _operator.add, 'sub': _operator.sub, 'mul': _operator.mul, 'floordiv': _operator.floordiv,
+        'mod': _operator.mod, 'lshift': _operator.lshift, 'rshift': _operator.rshift}
+_IOPS = {'add': _operator.iadd, 'sub': _operator.isub, 'mul': _operator.imul, 'floordiv': _operator.ifloordiv,
+         'mod': _operator.imod, 'lshift': _operator.ilshift, 'rshift': _operator.irshift}
+_CMP = {'lt': _operator.lt, 'gt': _operator.gt, 'le': _operator.le, 'ge': _operator.ge, 'eq': _operator.eq, 'ne': _operator.ne}
+
+
+@op('aop')
+def _aop(w, c):
+    return _OPS[c['sa'][0]](T(w, c), pyval(w, c['va'][0]))
+
+
+@op('aiop')
+def _aiop(w, c):
+    a = T(w, c)
+    a = _IOPS[c['sa'][0]](a, pyval(w, c['va'][0]))
+    return a
+
+
+@op('acmp')
+def _acmp(w, c):
+    return _CMP[c['sa'][0]](T(w, c), pyval(w, c['va'][0]))
+
+
+@op('aunary')
+def _aunary(w, c):
+    return -T(w, c) if c['sa'][0] == 'neg' else abs(T(w, c))
+
+
+@op('abitop')
+def _abitop(w, c):
+    a = T(w, c)
+    x = w.operand(c['xs'][0])
+    opn, how = c['sa'][0], c['sa'][1]
+    if how == 'inplace':
+        if opn == 'and':
+            a &= x
+        elif opn == 'or':
+            a |= x
+        else:
+            a ^= x
+        return a
+    return {'and': _operator.and_, 'or': _operator.or_, 'xor': _operator.xor}[opn](a, x)
+
+
+@op('aopa')
+def _aopa(w, c):
+    return _OPS[c['sa'][0]](T(w, c), w.objs[c['xs'][0]['id']])
+
+
+@op('aextendarr')
+def _aextendarr(w, c):
+    T(w, c).extend(w.objs[c['xs'][0]['id']])
+
+
+@op('afromarray')
+def _afromarray(w, c):
+    import array
+    name, n = c['sa'][0], N(c['ia'][0])
+    arr = array.array(c['sa'][1], _items(w, c))
+    how = c['sa'][2] if len(c['sa']) > 2 else 'ctor'
+    if how == 'extend':
+        a = w.bs.Array(tokname(name, n, 0))
+        a.extend(arr)
+        return a
+    return w.bs.Array(tokname(name, n, 0), arr)
